@@ -4,6 +4,7 @@ import json
 
 from hypothesis import strategies as st
 
+from pbt import gen
 from pbt import manifests as mf
 from pbt.props.c01 import diff
 from pbt.runner import must, check
@@ -27,7 +28,7 @@ COMPOSE_DOC = {"id": "F-22-20160622.n.3", "type": "nightly", "date": "20160622",
 
 def _roundtrip(kind, cls, attr, obj, model):
     text = must("dumps-valid-manifest", obj.dumps)
-    again = cls()
+    again = gen.give_past(cls(), gen.past_of(text))
     must("loads", again.loads, text)
     got = getattr(again, attr)
     d = diff(model, got)
